@@ -52,7 +52,7 @@ func (p *c13prop) Gen(kind string, idx int64, seed int64, tier string) core.Case
 	}
 	r := core.Rand(s, p.id, kind, idx)
 	var cc C13Case
-	w := HWeights{Write: 18, ReadFrom: 8, Parse: 34, ParseNTL: 10, ParseNil: 3, Shrink: 12, Reset: 0, ResetData: 0, Probe: 4}
+	w := HWeights{Write: 18, ReadFrom: 8, Parse: 34, ParseNTL: 10, ParseNil: 3, Shrink: 12, Reset: 0, ResetData: 0, Probe: 4, WParse: 6}
 	class, typ := splitKind(k)
 	if k == "conc" {
 		class = "conc"
